@@ -8,6 +8,7 @@ import (
 	"os"
 	"path/filepath"
 	"reflect"
+	"regexp"
 	"strings"
 	"sync"
 
@@ -39,6 +40,15 @@ func toolCorpus(c *ctx, dir string, stream string, nf, np, ns int, o prog.GenOpt
 			tp.Files = append(tp.Files, fn)
 		}
 		pkgs = append(pkgs, tp)
+	}
+	// Every input must type-check under the cff tag: a package that does not is
+	// a defect of this generator and would silently shrink the workload.
+	if out, err := vc.Run(dir, vc.Env(), "go", "vet", "-framepointer", "-tags", "cff", "./..."); err != nil {
+		bad := map[string]bool{}
+		for _, m := range regexp.MustCompile(`(?m)^# scratch/(\S+)`).FindAllStringSubmatch(out, -1) {
+			bad[m[1]] = true
+		}
+		c.R.Inconclusive(fmt.Sprintf("%d generated input packages of the %s corpus do not type-check under the cff tag (input generator defect): %s", len(bad), stream, firstLines(out, 4)))
 	}
 	return pkgs
 }
